@@ -34,6 +34,11 @@ def flat(v):
     return v
 
 
+def _queue_items(dev):
+    from .. import world
+    return world.CURRENT.queue_items(dev)
+
+
 def observation(dev, out_items, extra=()):
     ev = []
     for e in dev.f[0].events:
@@ -43,7 +48,7 @@ def observation(dev, out_items, extra=()):
             ev.append(('err', flat(e[1])))
     q = None
     if len(dev.f) > 1:
-        q = tuple(flat(x) for x in dev.f[1].f[0].items)
+        q = tuple(flat(x) for x in _queue_items(dev))
     return (tuple(ev), tuple(out_items), q) + tuple(extra)
 
 
